@@ -36,10 +36,11 @@ def run(c):
               "transcribed cuthill_mckee + skyline_lu on exact rationals (N = 3 quick, N = 4 thorough; the code side runs "
               "every 5th 4x4 pattern in quick, all in thorough), every 4x4 (5x5 with diagonal in thorough) pattern through cuthill_mckee, every 2x2 "
               "matrix over -2..2 and 3x3 over -1..1 (-1..2 thorough) through detail::inverse, static_matrix ring identities "
-              "on 2x2 integer blocks, the stride maps of qr.hpp for all shapes <= 12x12; code: the same spaces plus seeded "
+              "on 2x2 integer blocks, the stride maps of qr.hpp for all shapes <= 12x12, call histories of 3 calls over shapes <= 3x3 (4x4) on one QR / skyline object; code: the same spaces plus seeded "
               "random real/complex/block matrices through the public classes; a case is non-trivial when the matrix has "
               ">= 2 rows (and the kernel produced a result); distinct by digest of the recorded input")
-    c.mechanism = {"cuthill_mckee returns a permutation": "M+V (exact)",
+    c.mechanism = {"a kernel object is reusable: any call of a history on one QR / skyline_lu object / inverse work buffer equals the call on a fresh object": "M (call-history model: no call reads scratch it has not written) + V (bitwise against a fresh object) + O (definition)",
+                   "cuthill_mckee returns a permutation": "M+V (exact)",
                    "skyline profile covers every non-zero": "M+V (exact)",
                    "skyline solve A x = f": "M (exact rationals) + V (rational solution vs recorded double at 2^-20) + O (long-double residual)",
                    "zero pivot <=> exception": "M+V (judged where the floating-point elimination is exact: dyadic pivots)",
@@ -74,7 +75,14 @@ def run(c):
         ms = [c.tlc_model("InverseModel", constants={"NI": 2, "NegLo": 2, "Hi": 2}, workers=4, coverage=False),
               c.tlc_model("InverseModel", constants={"NI": 3, "NegLo": 1, "Hi": 2 if th else 1}, workers=6 if th else 8, coverage=False, timeout=1700),
               c.tlc_model("StaticMatrixModel", constants={"Wide": "TRUE" if th else "FALSE"}, workers=6 if th else 8, coverage=False, timeout=1700),
-              c.tlc_model("QrModel", workers=2)]
+              c.tlc_model("QrModel", workers=2),
+              c.tlc_model("ScratchModel", constants={"SMAX": 4 if th else 3}, workers=4, coverage=False, timeout=1700)]
+        # teeth: without the loop that zeroes a Q column above its diagonal the call-history model must find a stale read
+        m = c.tlc_model("ScratchModel", constants={"ZeroAbove": "FALSE"}, workers=2, coverage=False)
+        if m["violated"]:
+            c.note("ScratchModel with ZeroAbove = FALSE violates %s as expected (history found after %d states)" % (m["violated"], m["states"]))
+        else:
+            c.vacuous.append("ScratchModel with ZeroAbove = FALSE no longer finds the stale read of QR::factorize")
         report(ms)
 
     def models():
@@ -86,7 +94,7 @@ def run(c):
 
     def code():
         rd = c.build("record_direct", ["record_direct.cpp"], flags=["-fno-access-control"])
-        runs = [("small", 1, 4000), ("random", 1, 400), ("random", 4, 400), ("inverse", 1, 2500), ("sm", 1, 600), ("qr", 1, 800)]
+        runs = [("small", 1, 4000), ("random", 1, 400), ("random", 4, 400), ("inverse", 1, 2500), ("sm", 1, 600), ("qr", 1, 800), ("reuse", 1, 800), ("reuse", 4, 800)]
         if th:
             runs += [("random", 16, 400)]
         for mode, nt, chunk in runs:
